@@ -12,6 +12,10 @@ def hooks_commits():
 
 # id -> dict(engine, category, technique, text, note, design_ref)
 CHECKS = {
+ "C10": dict(engine="h_span", category="exploration", design="§3 C10",
+   technique="exhaustive enumeration of a generated macro-form x field-form x value-type corpus under every filtering stage (fresh process per stage; compile-time cap in a separately built binary) + preemption-bounded exhaustive schedule exploration of racing first hits",
+   text="Generated corpus (tools/gen_c10.py): {event!, trace!..error!} x 7 prefix forms x 12 field-list shapes and {span!, *_span!} x 4 prefix forms x the message-free shapes (every combination the macro grammar accepts), every Value type with boundary values in events and spans, Span::record of declared and undeclared fields, enabled!; every callsite is hit twice under collectors that enable it, disable it statically, disable it dynamically, enable it dynamically, cap the level by hint, and under the compile-time maximum level: a typed recording visitor must see each field once, under its declared name, in declaration order (message first), through the visitor method of its type with exactly the value; counters inside every field/message expression must read 1 when enabled and 0 when disabled. Two threads racing on the first hit of a disabled callsite are explored over every interleaving up to the bound.",
+   note="Forms the macro grammar rejects at compile time (listed in tools/c10_skip.txt, found by compiling) are not part of the corpus. r#ident fields are visited under the name as written (r#ident)."),
  "C03": dict(engine="h_span", category="model_checking", design="§3 C03",
    technique="explicit-state BFS over programs on the Span API executed on fresh OS threads against two recording collectors, compared call-by-call with a handle/guard reference model",
    text="Every program up to the stated depth over {span! with contextual / root / explicit parent at enabled and filtered-out callsites, clone, drop, borrowed enter guards dropped in any order, entered()/exit()/drop of EnteredSpan, in_scope (also unwinding by panic), record, follows_from, Span::current, or_current, tracing's and tracing-futures' Instrumented futures polled 0..n times, dropped or taken apart with into_inner, operations performed on either of two threads, thread default switched between the span's own collector, another collector and none} is executed; after every operation the exact list of collector calls (which collector, which method, which span id, which thread) must equal the model: one new_span, one clone_span per extra handle, one try_close per dropped handle, enter/exit pairs on the calling thread, everything on the creating collector, nothing for disabled spans.",
